@@ -11,7 +11,7 @@ cleanup() { git -C /repo worktree remove --force "$WT" >/dev/null 2>&1; rm -rf "
 trap cleanup EXIT
 cd "$WT"
 cp "$DIR/demo.rs" tests/seed_demo.rs
-export CARGO_NET_OFFLINE=true CARGO_TARGET_DIR=/tmp/seedverify/target-${SEED_WORKER:-0}
+export CARGO_INCREMENTAL=0 CARGO_PROFILE_DEV_DEBUG=0 CARGO_PROFILE_TEST_DEBUG=0 CARGO_NET_OFFLINE=true CARGO_TARGET_DIR=/tmp/seedverify/target-${SEED_WORKER:-0}
 run_demo() { timeout 600 cargo test --offline --features "$FEAT" --test seed_demo >"$1" 2>&1; echo $?; }
 DEMO_CLEAN=$(run_demo "$DIR/demo_clean.log")
 if ! git apply "$DIR/patch.diff" 2>/dev/null && ! git apply -3 "$DIR/patch.diff"; then echo '{"applies": false}' > "$DIR/meta.verify.json"; exit 1; fi
